@@ -11,7 +11,7 @@ import random, re
 from . import common as C, macrogen as M, sexp
 
 PROP = "C04"
-MODULES = ["RuschmProofs.C04", "RuschmProofs.C04More", "RuschmProofs.C04Program"]
+MODULES = ["RuschmProofs.C04", "RuschmProofs.C04More", "RuschmProofs.C04Program", "RuschmProofs.C04Storm"]
 def is_var(x, lits):
     """an identifier that is not a literal, `_` or `...` is a pattern variable"""
     return (isinstance(x, str) and x not in lits and x not in ("_", "...") and x not in ("#t", "#f")
@@ -312,6 +312,20 @@ def macro_storm(rep, tier, rng):
         forms.append(bad[i % len(bad)] if i < 30 else rng.choice(bad)); want.append("E syntax")
     for f, w in good:
         forms.append(f); want.append(w)
+    # USES that print alike but are different forms (a string / character against the number or identifier of the same spelling), one
+    # after the other on the same interpreter: each selects its rule and fills its template from ITS OWN data
+    tdefs = ["(define-syntax kind (syntax-rules () ((kind 1) (quote one)) ((kind a) (quote other))))",
+             "(define-syntax q2 (syntax-rules () ((q2 x y) (quote (x y)))))", "(define-syntax only7 (syntax-rules () ((only7 7 x) x)))"]
+    tuses = [("(kind 1)", "V y:one"), ('(kind "1")', "V y:other"), ("(kind 1)", "V y:one"), ("(q2 a b)", "V (y:a y:b)"), ('(q2 "a" "b")', 'V (s:"a" s:"b")'),
+             ("(q2 #\\a b)", "V (c:97 y:b)"), ("(only7 7 3)", "V i:3"), ('(only7 "7" 3)', "E syntax"), ("(only7 7 4)", "V i:4")]
+    tgot = C.run_hx([("twins", "prog", ["std"] + tdefs + [u for u, _ in tuses])]).get("twins", [])[len(tdefs):]
+    rep.count(len(tuses)); rep.nontrivial(("use-twins",))
+    tg2 = [x if not x.startswith("E ") else "E " + x.split(" ")[1] for x in tgot]
+    if tg2 != [w for _, w in tuses]:
+        j = next((j for j in range(min(len(tg2), len(tuses))) if tg2[j] != tuses[j][1]), None)
+        rep.violation({"what": "a macro use is not expanded from its own data: an earlier use that PRINTS alike (a string or character against the "
+                               "number or identifier of the same spelling) decided its expansion", "definitions": tdefs,
+                       "uses": [u for u, _ in tuses], "use": tuses[j][0] if j is not None else None, "expected": [w for _, w in tuses], "implementation": tgot})
     got = C.run_hx([("storm", "prog", ["std"] + forms)]).get("storm", [])
     rep.count(len(forms)); rep.nontrivial(("macro-storm", n))
     g2 = [x if not x.startswith("E ") else "E " + x.split(" ")[1] for x in got]
